@@ -205,6 +205,16 @@ func (e *Eng) evalCallInner(st *State, call *ast.CallExpr) []*Val {
 			}
 		}
 	}
+	if strings.HasPrefix(key, "dyn:") && e.ownPanicsChecked() {
+		// calling a nil function value panics: own code must know the value is there
+		if id, ok := fun.(*ast.Ident); ok {
+			if obj, isVar := e.info.ObjectOf(id).(*types.Var); isVar && !obj.IsField() {
+				if fv, ok := st.vars[obj]; ok && fv != nil && fv.Sort == "Int" && fv.Lit == nil && fv.FromMap {
+					e.oblige(st, "nopanic", "nil-func "+e.src(fun), "(not (= "+fv.T+" 0))", call.Pos())
+				}
+			}
+		}
+	}
 	cls, text := e.anchorClauses(call)
 	if sig == nil {
 		e.gap("call of unknown kind %s", e.src(call))
@@ -349,6 +359,12 @@ func (e *Eng) evalCallInner(st *State, call *ast.CallExpr) []*Val {
 		// something about its panics (safe / nopanic / noescape), or be trusted explicitly (a listed assumption) -
 		// otherwise moving code into a new helper would move it out of the claim
 		if con == nil {
+			// a helper of the same package that carries no contract of its own is verified as part of its caller: its
+			// body is executed in place (so every clause of the caller applies to what it does); only helpers that
+			// cannot be inlined (other package, no body, recursion, too large) fail the obligation
+			if vals, ok := e.inlineOwnHelper(st, key, recv, args, call); ok {
+				return vals
+			}
 			e.oblige(st, "safe", "own-callee-without-contract "+shortKey(key), "false", call.Pos())
 		} else if !con.Trusted && !(con.Safe || con.NoPanic || con.NoEscape || con.AssumeNoPanic) {
 			e.oblige(st, "safe", "own-callee-contract-silent-on-panics "+shortKey(key), "false", call.Pos())
@@ -936,4 +952,51 @@ func (e *Eng) bindArgTexts(env map[string]*Val, call *ast.CallExpr) {
 		env[fmt.Sprintf("argparam%d", i)] = scalar(fmt.Sprint(isParam), "Bool", nil)
 		env[fmt.Sprintf("argpath%d", i)] = scalar(e.strLit(path), "Str", types.Typ[types.String])
 	}
+}
+
+// inlineOwnHelper executes the body of a contract-less function of the package under verification in the caller's
+// state (parameters and receiver bound to the argument values, own defers run, results returned).
+func (e *Eng) inlineOwnHelper(st *State, key string, recv *Val, args []*Val, call *ast.CallExpr) ([]*Val, bool) {
+	ref := e.funcIndex.byKey[key]
+	if ref == nil || ref.fd == nil || ref.fd.Body == nil || ref.pkg != e.pkg {
+		return nil, false
+	}
+	if ref.fd.Type.TypeParams != nil || ref.fd == e.fn {
+		return nil, false
+	}
+	n := 0
+	ast.Inspect(ref.fd.Body, func(x ast.Node) bool {
+		if _, ok := x.(ast.Stmt); ok {
+			n++
+		}
+		return true
+	})
+	if n > 80 {
+		return nil, false
+	}
+	if e.inlDepth >= 3 {
+		return nil, false
+	}
+	for _, f := range ref.fd.Type.Params.List {
+		if _, variadic := f.Type.(*ast.Ellipsis); variadic {
+			return nil, false
+		}
+	}
+	work := st.clone()
+	if ref.fd.Recv != nil && len(ref.fd.Recv.List) == 1 && len(ref.fd.Recv.List[0].Names) == 1 && recv != nil {
+		if obj := e.info.Defs[ref.fd.Recv.List[0].Names[0]]; obj != nil {
+			work.vars[obj] = e.coerce(recv, obj.Type())
+		}
+	}
+	e.gap("call to %s without contract: body inlined into the caller", key)
+	e.inlDepth++
+	fl := &ast.FuncLit{Type: ref.fd.Type, Body: ref.fd.Body}
+	out, vals := e.execClosure(work, fl, args)
+	e.inlDepth--
+	if out == nil {
+		st.dead = true
+		return nil, true
+	}
+	*st = *out
+	return vals, true
 }
